@@ -724,7 +724,7 @@ func gen(r *h.Rand, tier string, emit func([]string)) {
 	rec(nil)
 	for _, sq := range seqs {
 		partN := uint64(1)
-		if r.Chance(0.15) {
+		if r.Chance(0.08) {
 			partN = 8
 		}
 		m := newMirror(partN)
@@ -763,7 +763,7 @@ func gen(r *h.Rand, tier string, emit func([]string)) {
 		}
 	}
 	// random longer histories over the full universe
-	nRandom := 150
+	nRandom := 100
 	if tier == "thorough" {
 		nRandom = 1500
 	}
@@ -807,7 +807,7 @@ func gen(r *h.Rand, tier string, emit func([]string)) {
 		emit(m.ops)
 	}
 	// crashes while an operation is in flight: every entry boundary and bytes inside entries
-	nCrash := 6
+	nCrash := 4
 	if tier == "thorough" {
 		nCrash = 40
 	}
@@ -818,6 +818,135 @@ func gen(r *h.Rand, tier string, emit func([]string)) {
 			}
 		}
 	}
+	// cuts inside multi-byte varints (series ids >= 128, 130-byte names)
+	allBytes := func(n int) []int {
+		var a []int
+		for i := 0; i < n; i++ {
+			a = append(a, i)
+		}
+		return a
+	}
+	emit(bigIDCase(r, allBytes(10)))
+	emit(bigIDCase(r, allBytes(10)))
+	// entry sizes with 130-byte name/key/value: key tombstone 271, value tombstone 403, measurement 141
+	interesting := [][2]int{}
+	for _, k := range []int{0, 3} { // series tombstones (small id): every byte
+		for e := 0; e < 9; e++ {
+			interesting = append(interesting, [2]int{k, e})
+		}
+	}
+	for _, e := range []int{1, 2, 3, 4, 70, 133, 134, 135, 136, 137, 200, 265, 266, 267, 268, 269, 270} {
+		interesting = append(interesting, [2]int{1, e})
+	}
+	for _, e := range []int{1, 2, 3, 4, 134, 135, 136, 266, 267, 268, 269, 300, 398, 399, 400, 401, 402} {
+		interesting = append(interesting, [2]int{2, e})
+	}
+	for _, e := range []int{1, 2, 3, 4, 5, 100, 133, 134, 135, 136, 137, 138, 139, 140} {
+		interesting = append(interesting, [2]int{4, e})
+	}
+	if tier == "thorough" {
+		interesting = nil
+		for k, size := range []int{9, 271, 403, 9, 141} {
+			for e := 0; e < size; e++ {
+				interesting = append(interesting, [2]int{k, e})
+			}
+		}
+	}
+	for i := 0; i < len(interesting); i += 12 {
+		j := i + 12
+		if j > len(interesting) {
+			j = len(interesting)
+		}
+		emit(longNameCase(r, interesting[i:j]))
+	}
+}
+
+
+// ---- torn multi-byte varints ------------------------------------------------------------
+// A log entry is flag, uvarint(series id), uvarint(len)+name, uvarint(len)+key,
+// uvarint(len)+value, crc32. With ids < 128 and short names every varint is one byte, and a
+// cut can never fall inside one. The two generators below make 2-byte varints and cut the
+// log at chosen (thorough: all) bytes of the entries of the operation in flight: the index
+// must open again and show the prefix state.
+
+func sfilePartition(g genSeries) uint64 {
+	skey := tsdb.AppendSeriesKey(nil, []byte(g.name), g.mtags())
+	return xxhash.Sum64(skey) % tsdb.SeriesFilePartitionN
+}
+
+// bigIDCase: 16 series of one series-file partition (ids up to 121+p), then series whose id
+// needs two varint bytes, each created and torn at `extra` bytes (nothing of it survives).
+func bigIDCase(r *h.Rand, extras []int) []string {
+	m := newMirror(1)
+	m.emit("cfg 1")
+	target := uint64(r.Intn(int(tsdb.SeriesFilePartitionN)))
+	next := 0
+	pick := func() genSeries {
+		for {
+			g := genSeries{name: "m", tags: [][2]string{{"k1", fmt.Sprintf("v%d", next)}}}
+			next++
+			if sfilePartition(g) == target {
+				return g
+			}
+		}
+	}
+	for i := 0; i < 16; i++ {
+		m.create(pick())
+	}
+	if r.Bool() {
+		m.emit("roll 0")
+		m.emit("clog 0")
+	}
+	m.emit("sm m")
+	for _, extra := range extras {
+		id := m.create(pick())
+		if id < 128 {
+			panic("bigIDCase: id below 128")
+		}
+		m.emit(fmt.Sprintf("crash 0 0 %d", extra))
+		m.emit("ms")
+		m.emit("sm m")
+		m.emit("tk m")
+	}
+	// and one that stays
+	m.create(pick())
+	m.emit("reopen")
+	m.emit("sm m")
+	m.emit("sk m k1")
+	return m.ops
+}
+
+var (
+	longName  = "m" + strings.Repeat("x", 129)
+	longKey   = "k" + strings.Repeat("y", 129)
+	longValue = "v" + strings.Repeat("z", 129)
+)
+
+// longNameCase: a measurement / tag key / tag value of 130 bytes each: the tombstone entries
+// of its drop carry 2-byte length varints. The index half of the drop is torn inside entry
+// number k (0 series tombstone, 1 tag-key, 2 tag-value, 3 series, 4 measurement) at `extra`.
+func longNameCase(r *h.Rand, cuts [][2]int) []string {
+	m := newMirror(1)
+	m.emit("cfg 1")
+	g := genSeries{name: longName, tags: [][2]string{{longKey, longValue}}}
+	other := genSeries{name: "m", tags: [][2]string{{"k1", "a"}}}
+	m.create(other)
+	for _, c := range cuts {
+		id := m.create(g)
+		m.emit(fmt.Sprintf("xi %d", id))
+		m.emit(fmt.Sprintf("crash 0 %d %d", c[0], c[1]))
+		m.emit("ms")
+		m.emit("sm " + longName)
+		m.emit("tk " + longName)
+		m.emit("tv " + longName + " " + longKey)
+		m.emit("sv " + longName + " " + longKey + " " + longValue)
+		if r.Chance(0.3) {
+			m.emit("roll 0")
+			m.emit("clog 0")
+		}
+	}
+	m.emit("sm m")
+	return m.ops
 }
 
 // genBalanced emits the generator's cases in a strided order, so that the contiguous chunks the
